@@ -566,7 +566,8 @@ CHECKS = {
                # the same bound with UpdateReset called off-schedule and late (Target.Reset calls it on every reconnect)
                dict(name="latency-irregular", run="TestC15LatencyIrregular", checks=dict(quick=8000, thorough=60000), shards=dict(quick=1, thorough=8)),
                dict(name="race", run="TestC15Race", rapid=False, race=True,
-                    args=dict(quick=["-c15.rounds=150"], thorough=["-c15.rounds=2000"]), shards=dict(quick=1, thorough=4))],
+                    # several processes: some defects only show in a process's first round (first use of package-level state)
+                    args=dict(quick=["-c15.rounds=60"], thorough=["-c15.rounds=1000"]), shards=dict(quick=3, thorough=8))],
     ),
     "C09": dict(
         engine="ctreeprop",
